@@ -10,6 +10,7 @@ RULES = {
     'val': 'label arithmetic (%offset %position %hi %lo bare labels) in instructions and dw/dd/dh/pack data at 6 gaps, both directions',
     'cedge': 'literal operands on both sides of every RVC operand-set boundary (7.4k instructions)',
     'pseudo': 'every simple pseudo-instruction over register choices incl. x0/x2/rd=rs; pseudo-branches at 11 distances',
+    'rand': 'seeded random programs of 3-12 items over a 48-item alphabet (label arithmetic in instructions and data, explicit c.* source instructions, li of every size class, aligns 2/3/4/5/8/16, transfers of every form), a label at every gap, random targets (quick 300, thorough 6000; VERIF_SEED)',
     'data': 'data directives at the ends of every width, pack formats, ASCII strings with escapes',
 }
 
@@ -38,7 +39,7 @@ def encoder_text_task(ctx, which, checks, spellings=('x',), only=None):
     r = real()
     for p, legal in gen.encoder_programs(ms, spellings):
         src = p.source()
-        for compress in (False,):
+        for compress in ((False, True) if legal else (False,)):
             rs = r.chunks(src, compress)
             ctx.b_eval('enc', p.tag, nontrivial=True, sample={'tag': p.tag, 'source': src[:200]})
             m = p.tag.split(':')[1]
@@ -88,3 +89,57 @@ def halfword_task(ctx):
                           'halfword 0x%04x = %s%r: the real encoder gives %r' % (h, c[0], c[1], obs),
                           {'halfword': h, 'm': c[0], 'args': list(c[1]), 'observed': obs}, confirmed=True)
     ctx.bounded['parts'].setdefault('halfwords', {'evaluations': 0, 'distinct': set()})['legal'] = n_legal
+
+
+def split_task(ctx, suite, every=4):
+    """the same program spread over included files (line numbers restart in each file, files in a subdirectory and next to
+    the main file) must assemble to the bytes, labels and constants of the single-source program (C14 splice; also exposes
+    state that leaks between files or between the passes of one run)"""
+    import os
+    import random
+    import shutil
+    import tempfile
+    from bounded import families
+    from pyvc.real import real
+    r = real()
+    rnd = random.Random(ctx.seed * 17 + 3)
+    ctx.b_rule('split: every %dth program of suite %s cut at 1-3 random points into main.asm + included files (include lines at column 0, '
+               'parts next to the main file and in a subdirectory), both modes, compared with the single-source assembly' % (every, suite))
+    root = tempfile.mkdtemp(prefix='bbsplit_')
+    try:
+        for n, p in enumerate(families.suite(suite, 'quick', ctx.seed)):
+            if n % every:
+                continue
+            lines = [rec['text'] for rec in p.recs]
+            if len(lines) < 4 or len(p.source()) > 100000:
+                continue
+            work = tempfile.mkdtemp(prefix='s_', dir=root)
+            os.makedirs(os.path.join(work, 'parts'))
+            cuts = sorted(rnd.sample(range(1, len(lines)), min(len(lines) - 1, rnd.randint(1, 3))))
+            segs = [lines[a:b] for a, b in zip([0] + cuts, cuts + [len(lines)])]
+            main = []
+            for k, seg in enumerate(segs):
+                if k % 2 == 0:
+                    main += seg
+                else:
+                    name = ('parts/p%d.asm' % k) if k % 4 == 1 else ('q%d.asm' % k)
+                    open(os.path.join(work, name), 'w').write('\n'.join(seg) + '\n')
+                    main.append('include %s' % name)
+            mp = os.path.join(work, 'main.asm')
+            open(mp, 'w').write('\n'.join(main) + '\n')
+            for compress in (False, True):
+                a = r.assemble(p.source(), compress=compress)
+                b = r.assemble(mp, compress=compress, cwd='/')
+                ctx.b_eval('split', (suite, p.tag, compress), nontrivial='ok' in a, sample={'tag': p.tag, 'cuts': cuts})
+                same = (a.get('ok') == b.get('ok') and a.get('labels') == b.get('labels') and a.get('constants') == b.get('constants')) \
+                    if 'ok' in a else ('ok' not in b)
+                if not same:
+                    ctx.violation('bounded/split', 'split:%s' % ('bytes' if a.get('ok') != b.get('ok') else 'tables'),
+                                  '%s cut at %r (compress=%s): assembled from included files %s, from one source %s' % (
+                                      p.tag, cuts, compress, str(b.get('ok') or b.get('exc'))[:60], str(a.get('ok') or a.get('exc'))[:60]),
+                                  {'single_source': p.source()[:3000], 'main': '\n'.join(main), 'parts': {('p%d' % k): segs[k] for k in range(1, len(segs), 2)},
+                                   'compress': compress}, confirmed=True)
+                    break
+            shutil.rmtree(work, ignore_errors=True)
+    finally:
+        shutil.rmtree(root, ignore_errors=True)
